@@ -302,4 +302,217 @@ theorem c04_key_allowed (c : Consumer) (x : Ctx) (a : Artefact) (l : List Alg)
   intro k hk hh
   exact h ((allowed_mem hl a.alg).mpr ⟨k, hk, hh.2.1⟩)
 
+/-! ### validity window, issuer and audience -/
+
+/-- **Window.** Past its signed `exp` an artefact is rejected by every consumer that grants
+anything on it, and before its signed `nbf` by every consumer of the kinds that carry one — with
+exactly the claims the Go code reads (`exp`/`nbf` as decoded into the consumer's struct).
+`upgrade` does not read `exp` (see `c04_upgrade_keeps_window_and_user`). -/
+theorem c04_window (c : Consumer) (x : Ctx) (a : Artefact) (hs : Sane x) :
+    (c ≠ .upgrade → gInt a.claims .exp < x.now.sec → accepts c x a = false) ∧
+    ((c.purpose = .session ∨ c.purpose = .cli ∨ c.purpose = .storage) →
+      x.now.sec < gInt a.claims .nbf → accepts c x a = false) := by
+  constructor
+  · intro hc hlt
+    cases hacc : accepts c x a
+    · rfl
+    · have hh := c04_sound c x a hs hacc
+      cases c <;> simp_all [honourable, Consumer.purpose, inWindow] <;> omega
+  · intro hc hlt
+    cases hacc : accepts c x a
+    · rfl
+    · have hh := c04_sound c x a hs hacc
+      cases c <;> simp_all [honourable, Consumer.purpose, inWindow] <;> omega
+
+/-- **Issuer and audience.** Session cookies, CLI tokens and storage records are honoured only
+when `iss` is this server and the first audience is this server. -/
+theorem c04_iss_aud (c : Consumer) (x : Ctx) (a : Artefact)
+    (hp : c.purpose = .session ∨ c.purpose = .cli ∨ c.purpose = .storage) (h : accepts c x a = true) :
+    gStr a.claims .iss = x.dep.issuer ∧ (gStrs a.claims .aud).head? = some x.dep.issuer := by
+  cases c with
+  | session =>
+    obtain ⟨info, hi⟩ := isOk_iff.mp h
+    obtain ⟨hg, _, _⟩ := acceptSession_ok hi
+    obtain ⟨_, _, hb, _⟩ := getAuthInfo_ok hg
+    exact ⟨(authValues_ok hb).1, (authValues_ok hb).2.2.1⟩
+  | upgrade =>
+    obtain ⟨cl, hi⟩ := isOk_iff.mp h
+    obtain ⟨_, _, hb, _⟩ := acceptUpgrade_ok hi
+    exact ⟨(authValues_ok hb).1, (authValues_ok hb).2.2.1⟩
+  | cliVerify =>
+    obtain ⟨info, hi⟩ := isOk_iff.mp h
+    obtain ⟨hg, _⟩ := acceptCliVerify_ok hi
+    obtain ⟨_, _, hb, _⟩ := getAuthInfo_ok hg
+    exact ⟨(authValues_ok hb).1, (authValues_ok hb).2.2.1⟩
+  | cliSend =>
+    obtain ⟨info, hi⟩ := isOk_iff.mp h
+    obtain ⟨hg, _, _⟩ := acceptCliSend_ok hi
+    obtain ⟨_, _, hb, _⟩ := getAuthInfo_ok hg
+    exact ⟨(authValues_ok hb).1, (authValues_ok hb).2.2.1⟩
+  | storage =>
+    obtain ⟨data, hi⟩ := isOk_iff.mp h
+    obtain ⟨_, hsv, _⟩ := acceptStorage_ok hi
+    obtain ⟨_, _, hb⟩ := storageVerify_ok hsv
+    exact ⟨(authValues_ok hb).1, (authValues_ok hb).2.2.1⟩
+  | code => simp [Consumer.purpose] at hp
+  | access => simp [Consumer.purpose] at hp
+
+/-- the access-token consumer's own issuer / audience rule -/
+theorem c04_access_iss_aud (x : Ctx) (a : Artefact) (h : accepts .access x a = true) :
+    gStr a.claims .iss = x.dep.issuer ∧
+    (gStrs a.claims .aud = [] ∨ (gStrs a.claims .aud).contains x.dep.userinfoURL = true) := by
+  obtain ⟨u, hi⟩ := isOk_iff.mp h
+  obtain ⟨_, _, _, _, h5, h6, _⟩ := acceptAccess_ok hi
+  exact ⟨h5, h6⟩
+
+/-! ### single-claim mutations -/
+
+/-- the JSON keys the consumer's claims struct has — all other keys are invisible to it -/
+def Consumer.reads : Consumer → List Field
+  | .session | .upgrade | .cliVerify | .cliSend => [.iss, .sub, .aud, .exp, .nbf, .iat, .tokenType, .authType]
+  | .storage => [.iss, .sub, .aud, .nbf, .exp, .iat, .tokenType, .dataType, .data]
+  | .code => [.iss, .sub, .iat, .exp, .aud, .username, .authLevel, .authExp, .nonce, .redirectUri,
+              .accessAudience, .scope, .typ, .jti, .protectedDataKey, .protectedData]
+  | .access => [.iss, .aud, .username, .scope, .exp, .iat, .typ]
+
+/-- the claims a consumer compares with something fixed by the deployment or the request, as it decodes them -/
+structure Pinned where
+  iss : Str := []
+  kind : Str := []
+  aud0 : Option Str := none
+  audOK : Bool := true
+  sub : Str := []
+  dataType : Int := 0
+  redirect : Str := []
+deriving DecidableEq, Repr
+
+def pinned (c : Consumer) (d : Deployment) (w : Wire) : Pinned :=
+  match c with
+  | .session | .upgrade | .cliVerify =>
+    { iss := gStr w .iss, kind := gStr w .tokenType, aud0 := (gStrs w .aud).head? }
+  | .cliSend =>
+    { iss := gStr w .iss, kind := gStr w .tokenType, aud0 := (gStrs w .aud).head?, sub := gStr w .sub }
+  | .storage =>
+    { iss := gStr w .iss, kind := gStr w .tokenType, aud0 := (gStrs w .aud).head?, sub := gStr w .sub,
+      dataType := gInt w .dataType }
+  | .code => { kind := gStr w .typ, sub := gStr w .sub, redirect := gStr w .redirectUri }
+  | .access =>
+    { iss := gStr w .iss, kind := gStr w .typ,
+      audOK := (gStrs w .aud).isEmpty || (gStrs w .aud).contains d.userinfoURL }
+
+/-- the one value of the pinned claims a consumer honours in a given context -/
+def pinnedGood (c : Consumer) (x : Ctx) : Pinned :=
+  match c with
+  | .session | .upgrade => { iss := x.dep.issuer, kind := sessionType, aud0 := some x.dep.issuer }
+  | .cliVerify => { iss := x.dep.issuer, kind := cliType, aud0 := some x.dep.issuer }
+  | .cliSend => { iss := x.dep.issuer, kind := cliType, aud0 := some x.dep.issuer, sub := x.authUser }
+  | .storage => { iss := x.dep.issuer, kind := storageType, aud0 := some x.dep.issuer, sub := x.lookupUser,
+                  dataType := x.lookupType }
+  | .code => { kind := codeType, sub := x.clientID, redirect := x.redirect }
+  | .access => { iss := x.dep.issuer, kind := accessType }
+
+/-- an honoured artefact carries exactly the one good value of every pinned claim -/
+theorem pinned_of_accepts (c : Consumer) (x : Ctx) (a : Artefact) (h : accepts c x a = true) :
+    pinned c x.dep a.claims = pinnedGood c x := by
+  cases c with
+  | session =>
+    obtain ⟨info, hi⟩ := isOk_iff.mp h
+    obtain ⟨hg, _, _⟩ := acceptSession_ok hi
+    obtain ⟨_, _, hb, _⟩ := getAuthInfo_ok hg
+    obtain ⟨h1, h2, h3, _⟩ := authValues_ok hb
+    simp [pinned, pinnedGood, h1, h2, h3, want_session]
+  | upgrade =>
+    obtain ⟨cl, hi⟩ := isOk_iff.mp h
+    obtain ⟨_, _, hb, _⟩ := acceptUpgrade_ok hi
+    obtain ⟨h1, h2, h3, _⟩ := authValues_ok hb
+    simp [pinned, pinnedGood, h1, h2, h3]
+  | cliVerify =>
+    obtain ⟨info, hi⟩ := isOk_iff.mp h
+    obtain ⟨hg, _⟩ := acceptCliVerify_ok hi
+    obtain ⟨_, _, hb, _⟩ := getAuthInfo_ok hg
+    obtain ⟨h1, h2, h3, _⟩ := authValues_ok hb
+    simp [pinned, pinnedGood, h1, h2, h3, want_cliV]
+  | cliSend =>
+    obtain ⟨info, hi⟩ := isOk_iff.mp h
+    obtain ⟨hg, hu, _⟩ := acceptCliSend_ok hi
+    obtain ⟨_, _, hb, rfl⟩ := getAuthInfo_ok hg
+    obtain ⟨h1, h2, h3, _⟩ := authValues_ok hb
+    simp at hu
+    simp [pinned, pinnedGood, h1, h2, h3, want_cliS, hu]
+  | storage =>
+    obtain ⟨data, hi⟩ := isOk_iff.mp h
+    obtain ⟨_, hsv, k1, k2, _⟩ := acceptStorage_ok hi
+    obtain ⟨_, _, hb⟩ := storageVerify_ok hsv
+    obtain ⟨h1, h2, h3, _⟩ := authValues_ok hb
+    simp at h1 h2 h3 k1 k2
+    simp [pinned, pinnedGood, h1, h2, h3, k1, k2]
+  | code =>
+    obtain ⟨w, hi⟩ := isOk_iff.mp h
+    obtain ⟨_, _, _, hcc, _⟩ := acceptCode_ok hi
+    obtain ⟨h1, _, h3, h4⟩ := codeChecks_ok hcc
+    simp [pinned, pinnedGood, h1, h3, h4]
+  | access =>
+    obtain ⟨u, hi⟩ := isOk_iff.mp h
+    obtain ⟨_, _, _, h2, h3, h4, _⟩ := acceptAccess_ok hi
+    rcases h4 with h4 | h4
+    · simp [pinned, pinnedGood, h2, h3, h4]
+    · simp only [List.contains_iff_mem] at h4
+      simp [pinned, pinnedGood, h2, h3, h4]
+
+/-- the consumer's verdict depends on the claims object only through the keys of its own struct -/
+theorem accepts_congr (c : Consumer) (x : Ctx) (a : Artefact) (w' : Wire)
+    (h : ∀ g ∈ c.reads, w' g = a.claims g) :
+    accepts c x { a with claims := w' } = accepts c x a := by
+  cases c with
+  | session =>
+    simp only [Consumer.reads, List.forall_mem_cons, List.not_mem_nil, false_imp_iff, implies_true, and_true] at h
+    obtain ⟨h1, h2, h3, h4, h5, h6, h7, h8⟩ := h
+    simp only [accepts, acceptSession, getAuthInfo_congr _ _ _ a w' h1 h2 h3 h4 h5 h6 h7 h8]
+  | upgrade =>
+    simp only [Consumer.reads, List.forall_mem_cons, List.not_mem_nil, false_imp_iff, implies_true, and_true] at h
+    obtain ⟨h1, h2, h3, h4, h5, h6, h7, h8⟩ := h
+    simp only [accepts, acceptUpgrade_congr _ _ _ a w' h1 h2 h3 h4 h5 h6 h7 h8]
+  | cliVerify =>
+    simp only [Consumer.reads, List.forall_mem_cons, List.not_mem_nil, false_imp_iff, implies_true, and_true] at h
+    obtain ⟨h1, h2, h3, h4, h5, h6, h7, h8⟩ := h
+    simp only [accepts, acceptCliVerify, getAuthInfo_congr _ _ _ a w' h1 h2 h3 h4 h5 h6 h7 h8]
+  | cliSend =>
+    simp only [Consumer.reads, List.forall_mem_cons, List.not_mem_nil, false_imp_iff, implies_true, and_true] at h
+    obtain ⟨h1, h2, h3, h4, h5, h6, h7, h8⟩ := h
+    simp only [accepts, acceptCliSend, getAuthInfo_congr _ _ _ a w' h1 h2 h3 h4 h5 h6 h7 h8]
+  | storage =>
+    simp only [Consumer.reads, List.forall_mem_cons, List.not_mem_nil, false_imp_iff, implies_true, and_true] at h
+    obtain ⟨h1, h2, h3, h4, h5, h6, h7, h8, h9⟩ := h
+    simp only [accepts]
+    exact congrArg isOk (acceptStorage_congr x.dep x.now
+      { user := x.colUser, ty := x.colType, expCol := x.colExp, jws := a } x.lookupUser x.lookupType w'
+      h1 h2 h3 h4 h5 h6 h7 h8 h9)
+  | code =>
+    simp only [accepts]
+    exact acceptCode_congr _ _ _ _ _ a w' h
+  | access =>
+    simp only [Consumer.reads, List.forall_mem_cons, List.not_mem_nil, false_imp_iff, implies_true, and_true] at h
+    obtain ⟨h1, h2, h3, h4, h5, h6, h7⟩ := h
+    simp only [accepts, acceptAccess_congr _ _ a w' h1 h2 h3 h4 h5 h6 h7]
+
+/-- **Single claim.** Take an artefact a consumer honours and change the value of one JSON key
+(to anything, including removing it), keeping the signature valid (i.e. re-signed by the real key):
+* a key the consumer's struct does not have changes nothing;
+* if the mutated artefact is still honoured, every pinned claim (issuer, kind, first audience / audience
+  rule, and where applicable subject, data type, redirect URI) decodes to the same value as before —
+  so a mutation that moves one of them is rejected. (`nbf`/`exp` mutations: `c04_window`.) -/
+theorem c04_single_claim (c : Consumer) (x : Ctx) (a : Artefact) (f : Field) (v : Option Val)
+    (h : accepts c x a = true) :
+    (f ∉ c.reads → accepts c x { a with claims := a.claims.set f v } = true) ∧
+    (accepts c x { a with claims := a.claims.set f v } = true →
+      pinned c x.dep (a.claims.set f v) = pinned c x.dep a.claims) := by
+  constructor
+  · intro hf
+    rw [accepts_congr c x a _ (fun g hg => set_other a.claims v (fun e => hf (by rw [← e]; exact hg)))]
+    exact h
+  · intro h'
+    have := pinned_of_accepts c x _ h'
+    simp only at this
+    rw [this, pinned_of_accepts c x a h]
+
 end KM.Token
